@@ -13,8 +13,17 @@ Every scenario is evaluated in the model of the FIXED tree (cfg F; proved to
 satisfy C19) and, when a write fault is injected, also in the model of the
 tree as shipped (cfg S).  real == F: fine.  real != F but == S: the tree has
 the known write-error defect -> VIOLATION with the concrete scenario.
-real matches neither: the model no longer describes the code -> VIOLATION."""
-import os, re, sys, json, time, random, shutil, subprocess, hashlib
+real matches neither: the model no longer describes the code -> VIOLATION.
+
+main() of asconcrypt (tool "args": direction detection, -p with -k, -o with several
+inputs, "-", typed passwords, close(2) of an output descriptor) is evaluated in the
+model of the tree with the two proposed patches (cfg P: fixes/C19-close-errors.patch,
+fixes/C19-typed-password-length.patch; proved to fail loudly) and, where the two
+differ, in the model of the tree as it is (cfg A).  real == P: fine.  real == A != P:
+the tree ignores a failing close of an output file / silently cuts a typed password
+-> VIOLATION with the scenario.  Case families for which the model has no prediction
+are judged by a rule written next to them and are listed as such in the evidence."""
+import os, re, sys, json, time, random, shutil, subprocess, hashlib, threading
 from concurrent.futures import ThreadPoolExecutor
 import common, stdflow
 
@@ -64,7 +73,14 @@ def C(raw):
 class Case:
     def __init__(self, tool, stream, fs, faults=".", rseed=1, **kw):
         self.tool, self.stream, self.fs, self.faults, self.rseed = tool, stream, fs, faults, rseed
-        self.__dict__.update(kw)           # crypt: mode pw files ; gen: kf ; sum: alg check files
+        self.dirs = ()                     # names that are directories in the real run (empty files in the model)
+        self.model_extra = ""              # fault selectors given to the model only (what a directory does to read/open)
+        self.stdin = None                  # bytes fed to standard input (None: /dev/null)
+        self.tty = None                    # None: no terminal; list of getpass answers (bytes or None) under C19_TTY/C19_GETPASS
+        self.pty = False                   # answers typed into a real pseudo-terminal, the C library's getpass reads them
+        self.rule = None                   # no model prediction: name of the rule in RULES that judges the run
+        self.raw_argv = None               # rule cases: the argument vector as given
+        self.__dict__.update(kw)           # crypt: mode pw files ; gen: kf ; sum: alg check files ; args: mode pw out inputs
         self.observe_only = kw.get("observe_only", False)
 
     def fs_token(self):
@@ -73,9 +89,41 @@ class Case:
         return ",".join("%s=%s" % (n.hex(), c.token()) for n, c in self.fs.items())
 
     def model_faults(self):
-        """fault selectors the model knows (EINTR 'e' and close 'c' selectors are outside it)"""
-        keep = [f for f in self.faults.split(",") if f != "." and not f.endswith("e") and not f.startswith("c")]
+        """fault selectors the model knows (EINTR 'e' and close 'c' selectors are outside its oracle)"""
+        keep = [f for f in (self.faults.split(",") + self.model_extra.split(",")) if f and f != "." and not f.endswith("e") and not f.startswith("c")]
         return ",".join(keep) if keep else "."
+
+    def closes(self):
+        ks = [f[2:] for f in self.faults.split(",") if f.startswith("cw")]
+        return ",".join(ks) if ks else "."
+
+    def long_typed(self):
+        return bool(self.tty) and any(a is not None and len(a.split(b"\0")[0]) >= 1024 for a in self.tty)
+
+    def cfgs(self):
+        """model variants: the first is the one C19 demands, the second (if any) a known way of falling short"""
+        if self.tool == "args" or (self.tool == "gen" and self.closes() != "."):
+            return ("P", "A") if (self.closes() != "." or self.long_typed()) else ("P",)
+        return ("F", "S") if re.search(r"w\d+f|l\d+", self.faults) else ("F",)
+
+    def uses_stdio(self):
+        if self.tool == "args":
+            return b"-" in self.inputs or self.out == b"-" or (self.pw[0] in "KB" and self.pw[-1] == b"-")
+        if self.tool == "sum":
+            return not self.files or b"-" in self.files or self.stdin is not None
+        return False
+
+    def keys(self, real):
+        """what is compared with the model"""
+        if self.observe_only:
+            return ("exit", "out", "fs")
+        if self.uses_stdio():
+            # no open call is made for "-" and reads of descriptor 0 are not counted: no cnt; a failed run that
+            # had already written to standard output: the model keeps no record of those bytes
+            if self.tool == "args" and real["exit"] != 0:
+                return ("exit", "err", "fs")
+            return ("exit", "err", "out", "fs")
+        return KEYS
 
     def line(self, cfg, bufsiz):
         if self.tool == "crypt":
@@ -83,11 +131,29 @@ class Case:
             files = ",".join("%s:%s" % (i.hex(), o.hex()) for i, o in self.files)
             return "CRYPT %s %d %s %s %s %s %s %d" % (cfg, bufsiz, self.mode, pw, files, self.fs_token(), self.model_faults(), self.rseed)
         if self.tool == "gen":
+            if cfg in "PA":
+                return "GENC F %s %s %s %s %s %d" % ("1" if cfg == "P" else "0", self.closes(), self.kf.hex(), self.fs_token(), self.model_faults(), self.rseed)
             return "GEN %s %s %s %s %d" % (cfg, self.kf.hex(), self.fs_token(), self.model_faults(), self.rseed)
+        if self.tool == "args":
+            pw = {"P": lambda: "P:" + hx(self.pw[1]), "K": lambda: "K:" + hx(self.pw[1]),
+                  "B": lambda: "B:%s:%s" % (hx(self.pw[1]), hx(self.pw[2])), "T": lambda: "T"}[self.pw[0]]()
+            tty = "N" if self.tty is None else "T:" + ",".join("NULL" if a is None else hx(a) for a in self.tty)
+            return "ARGS F %d %s %s %s %s %s %s %s %s %s %s %d" % (
+                bufsiz, "11" if cfg == "P" else "00", self.closes(), self.mode, pw, "." if self.out is None else "O:" + hx(self.out),
+                ",".join(hx(i) for i in self.inputs) if self.inputs else ".", tty, hx(self.stdin or b""), self.fs_token(), self.model_faults(), self.rseed)
+        fs = self.fs_token()
+        if self.uses_stdio():
+            # standard input is the file "-" of the model's file system
+            ent = "%s=%s" % (b"-".hex(), hx(self.stdin or b"") if self.stdin else "")
+            fs = ent if fs == "." else fs + "," + ent
+            return "SUMV %s %d %d %s %s %s %s" % (cfg, bufsiz, self.alg, "C" if self.check else "H",
+                                               ",".join(f.hex() for f in self.files) if self.files else ".", fs, self.model_faults())
         return "SUM %s %d %d %s %s %s %s" % (cfg, bufsiz, self.alg, "C" if self.check else "H",
-                                          ",".join(f.hex() for f in self.files), self.fs_token(), self.model_faults())
+                                          ",".join(f.hex() for f in self.files), fs, self.model_faults())
 
     def argv(self, exes):
+        if self.raw_argv is not None:
+            return [exes[self.raw_argv[0]]] + list(self.raw_argv[1:])
         if self.tool == "crypt":
             a = [exes["asconcrypt"], "-e" if self.mode == "E" else "-d"]
             a += (["-p", self.pw[1]] if self.pw[0] == "P" else ["-k", self.pw[1]])
@@ -96,7 +162,25 @@ class Case:
             return a + [i for i, _ in self.files]
         if self.tool == "gen":
             return [exes["asconcrypt"], "-g", self.kf]
+        if self.tool == "args":
+            a = [exes["asconcrypt"]] + {"E": ["-e"], "D": ["-d"], "N": []}[self.mode]
+            if self.pw[0] in "PB":
+                a += ["-p", self.pw[1]]
+            if self.pw[0] in "KB":
+                a += ["-k", self.pw[-1]]
+            if self.out is not None:
+                a += ["-o", self.out]
+            return a + list(self.inputs)
         return [exes["asconsum"], "-" + "haxy"[self.alg]] + (["-c"] if self.check else []) + list(self.files)
+
+    def env(self):
+        e = {"C19_RSEED": str(self.rseed)}
+        if self.faults != ".":
+            e["C19_FAULTS"] = self.faults
+        if self.tty is not None and not self.pty:
+            e["C19_TTY"] = "1"
+            e["C19_GETPASS"] = ",".join("NULL" if a is None else hx(a) for a in self.tty)
+        return e
 
     def blobs_used(self):
         return sorted(set(c.blob for c in self.fs.values() if c.blob))
@@ -106,14 +190,26 @@ class Case:
              "fs": {n.decode("latin1"): (c.js(blobs) if len(c.bytes(blobs)) <= 64 else
                                         {"len": len(c.bytes(blobs)), "sha256": hashlib.sha256(c.bytes(blobs)).hexdigest(),
                                          "hex": c.js(blobs)}) for n, c in self.fs.items()}}
-        for k in ("mode", "alg", "check", "explicit_out"):
-            if hasattr(self, k):
+        for k in ("mode", "alg", "check", "explicit_out", "model_extra", "pty", "rule", "observe_only"):
+            if hasattr(self, k) and getattr(self, k) not in (None, "", False):
                 d[k] = getattr(self, k)
+        if self.dirs:
+            d["dirs"] = [n.decode("latin1") for n in self.dirs]
+        if self.stdin is not None:
+            d["stdin"] = self.stdin.hex()
+        if self.tty is not None:
+            d["tty"] = [None if a is None else a.hex() for a in self.tty]
+        if self.raw_argv is not None:
+            d["raw_argv"] = [x.decode("latin1") if isinstance(x, bytes) else x for x in self.raw_argv]
         if self.tool == "crypt":
             d["pw"] = [self.pw[0], self.pw[1].hex()]
             d["files"] = [[i.decode("latin1"), o.decode("latin1")] for i, o in self.files]
         elif self.tool == "gen":
             d["kf"] = self.kf.decode("latin1")
+        elif self.tool == "args":
+            d["pw"] = [self.pw[0]] + [x.hex() for x in self.pw[1:]]
+            d["out"] = None if self.out is None else self.out.decode("latin1")
+            d["inputs"] = [i.decode("latin1") for i in self.inputs]
         else:
             d["files"] = [f.decode("latin1") for f in self.files]
         return d
@@ -130,9 +226,22 @@ def case_from_json(d):
                   files=[(i.encode("latin1"), o.encode("latin1")) for i, o in d["files"]])
     elif d["tool"] == "gen":
         kw = dict(kf=d["kf"].encode("latin1"))
+    elif d["tool"] == "args":
+        kw = dict(mode=d["mode"], pw=tuple([d["pw"][0]] + [bytes.fromhex(x) for x in d["pw"][1:]]),
+                  out=None if d["out"] is None else d["out"].encode("latin1"), inputs=[i.encode("latin1") for i in d["inputs"]])
     else:
         kw = dict(alg=d["alg"], check=d["check"], files=[f.encode("latin1") for f in d["files"]])
-    return Case(d["tool"], d["stream"], fs, d["faults"], d["rseed"], **kw)
+    c = Case(d["tool"], d["stream"], fs, d["faults"], d["rseed"], **kw)
+    c.dirs = tuple(n.encode("latin1") for n in d.get("dirs", ()))
+    c.model_extra = d.get("model_extra", "")
+    c.stdin = bytes.fromhex(d["stdin"]) if "stdin" in d else None
+    c.tty = [None if a is None else bytes.fromhex(a) for a in d["tty"]] if "tty" in d else None
+    c.pty = d.get("pty", False)
+    c.rule = d.get("rule")
+    c.observe_only = d.get("observe_only", False)
+    if "raw_argv" in d:
+        c.raw_argv = [d["raw_argv"][0]] + [x.encode("latin1") for x in d["raw_argv"][1:]]
+    return c
 
 
 # --------------------------------------------------------------------------
@@ -144,7 +253,13 @@ ERR_PATTERNS = [
     (re.compile(rb": password is incorrect$"), "bad-password"),
     (re.compile(rb": encrypted data is truncated$"), "truncated"),
     (re.compile(rb": file is corrupt and failed to decrypt$"), "corrupt"),
-    (re.compile(rb": password is too long, maximum is \d+ bytes$"), "pw-too-long"),
+    (re.compile(rb"password is too long, maximum is \d+ bytes$"), "pw-too-long"),
+    (re.compile(rb"^Usage: "), "usage"),
+    (re.compile(rb": cannot specify both -p and -k$"), "both-p-k"),
+    (re.compile(rb": only one input file allowed with -o$"), "one-input"),
+    (re.compile(rb": cannot determine direction; specify -e or -d$"), "direction"),
+    (re.compile(rb": cannot prompt for a password without a terminal$"), "no-terminal"),
+    (re.compile(rb": passwords do not match$"), "pw-mismatch"),
     (re.compile(rb": password value contains a NUL$"), "pw-nul"),
     (re.compile(rb": no properly formatted checksum lines found$"), "no-lines"),
     (re.compile(rb"^WARNING: (\d+) lines? (?:is|are) improperly formatted$"), "warn-format"),
@@ -155,10 +270,16 @@ STRERR = re.compile(rb": (No such file or directory|Permission denied|Input/outp
                     rb"Is a directory|Bad file descriptor|Interrupted system call|Success|[A-Z][A-Za-z /-]+)$")
 
 
+USAGE_REST = re.compile(rb"^(   or: |-[edpkog] |-[haxyc]  )")       # the other lines of the usage text
+SAN_RE = re.compile(rb"(ERROR: AddressSanitizer[^\n]*|ERROR: LeakSanitizer[^\n]*|[^\n]*runtime error:[^\n]*|AddressSanitizer:DEADLYSIGNAL)")
+ASAN_ENV = {"ASAN_OPTIONS": "detect_leaks=0:abort_on_error=0:verify_asan_link_order=0:detect_stack_use_after_return=0",
+            "UBSAN_OPTIONS": "print_stacktrace=1:halt_on_error=1"}
+
+
 def classify_stderr(err):
     out = []
     for ln in err.split(b"\n"):
-        if not ln:
+        if not ln or USAGE_REST.search(ln):
             continue
         for pat, name in ERR_PATTERNS:
             m = pat.search(ln)
@@ -170,7 +291,43 @@ def classify_stderr(err):
     return ",".join(out) if out else "."
 
 
-def run_real(case, blobs, exes, shim, workdir, timeout=60):
+def run_pty(argv, cwd, env, answers, timeout=60):
+    """Run argv with a fresh pseudo-terminal as controlling terminal, standard input and standard output;
+    type answers[k] + newline after the k-th password prompt.  -> (exit status, terminal output, stderr)"""
+    import pty, termios, fcntl, select
+    m, sl = pty.openpty()
+
+    def pre():
+        fcntl.ioctl(0, termios.TIOCSCTTY, 0)
+    p = subprocess.Popen(argv, cwd=cwd, env=env, stdin=sl, stdout=sl, stderr=subprocess.PIPE, start_new_session=True, preexec_fn=pre)
+    os.close(sl)
+    seen, sent, deadline = b"", 0, time.time() + timeout
+    while True:
+        r, _, _ = select.select([m], [], [], 0.1)
+        if r:
+            try:
+                d = os.read(m, 65536)
+            except OSError:
+                d = b""
+            if not d:
+                break
+            seen += d
+            while sent < len(answers) and seen.count(b"assword: ") > sent:
+                time.sleep(0.05)            # getpass switches echo off and flushes the input queue before it reads
+                os.write(m, answers[sent] + b"\n")
+                sent += 1
+        elif p.poll() is not None:
+            break
+        if time.time() > deadline:
+            p.kill()
+            break
+    err = p.stderr.read()
+    rc = p.wait()
+    os.close(m)
+    return rc, seen, err
+
+
+def run_real(case, blobs, exes, shim, workdir, timeout=60, extra_env=None):
     """Run the real program on the scenario; returns the canonical answer line
     (same format as the model's) plus details."""
     shutil.rmtree(workdir, ignore_errors=True)
@@ -178,24 +335,37 @@ def run_real(case, blobs, exes, shim, workdir, timeout=60):
     fs0 = {}
     for n, c in case.fs.items():
         b = c.bytes(blobs)
+        if n in case.dirs:
+            os.mkdir(os.path.join(workdir.encode(), n))
+            continue
         fs0[n] = b
         with open(os.path.join(workdir.encode(), n), "wb") as f:
             f.write(b)
     rep = workdir + ".rep"
     env = dict(os.environ)
-    env.update({"LD_PRELOAD": shim, "C19_RSEED": str(case.rseed), "C19_REPORT": rep, "LC_ALL": "C", "LANG": "C"})
-    env.pop("C19_FAULTS", None)
-    if case.faults != ".":
-        env["C19_FAULTS"] = case.faults
+    for k in ("C19_FAULTS", "C19_TTY", "C19_GETPASS"):
+        env.pop(k, None)
+    env.update({"LD_PRELOAD": shim, "C19_REPORT": rep, "LC_ALL": "C", "LANG": "C"})
+    env.update(case.env())
+    if extra_env:
+        env.update(extra_env)
     try:
-        p = subprocess.run(case.argv(exes), cwd=workdir, env=env, stdin=subprocess.DEVNULL, stdout=subprocess.PIPE,
-                           stderr=subprocess.PIPE, timeout=timeout)
-        rc, out, err = p.returncode, p.stdout, p.stderr
+        if case.pty:
+            rc, out, err = run_pty(case.argv(exes), workdir, env, [a for a in case.tty if a is not None], timeout)
+            out = b""                      # the prompts; the tools under test write no data to a terminal here
+        else:
+            p = subprocess.run(case.argv(exes), cwd=workdir, env=env, stdin=subprocess.DEVNULL if case.stdin is None else None,
+                               input=case.stdin, stdout=subprocess.PIPE, stderr=subprocess.PIPE, timeout=timeout)
+            rc, out, err = p.returncode, p.stdout, p.stderr
     except subprocess.TimeoutExpired:
         rc, out, err = -999, b"", b"TIMEOUT"
-    final = {}
+    final, dirs_now = {}, set()
     for n in os.listdir(workdir.encode()):
-        with open(os.path.join(workdir.encode(), n), "rb") as f:
+        full = os.path.join(workdir.encode(), n)
+        if os.path.isdir(full):
+            dirs_now.add(n)
+            continue
+        with open(full, "rb") as f:
             final[n] = f.read()
     changes = []
     for n, b in final.items():
@@ -204,6 +374,8 @@ def run_real(case, blobs, exes, shim, workdir, timeout=60):
     for n in fs0:
         if n not in final:
             changes.append("-" + hx(n))
+    for n in set(case.dirs) ^ dirs_now:
+        changes.append(("-" if n in case.dirs else "+") + hx(n) + "/")
     changes.sort()
     cnt = {}
     try:
@@ -215,8 +387,10 @@ def run_real(case, blobs, exes, shim, workdir, timeout=60):
         pass
     shutil.rmtree(workdir, ignore_errors=True)
     counts = "%d,%d,%d,%d,%d" % tuple(cnt.get(k, -1) for k in ("open", "read", "write", "rand", "gets"))
-    return {"exit": rc, "err": classify_stderr(err), "out": hx(out), "fs": ",".join(changes) if changes else ".",
-            "cnt": counts, "stderr_text": err.decode("latin1")[:600]}
+    san = SAN_RE.search(err)
+    return {"exit": rc, "err": classify_stderr(err) if not san else "sanitizer", "out": hx(out), "fs": ",".join(changes) if changes else ".",
+            "cnt": counts, "closes": (cnt.get("closew", -1), cnt.get("closer", -1)), "getpass": cnt.get("getpass", -1),
+            "stderr_text": err.decode("latin1")[:600] if not san else err.decode("latin1")[:3000]}
 
 
 def parse_answer(s):
@@ -234,9 +408,25 @@ def parse_answer(s):
 KEYS = ("exit", "err", "out", "fs", "cnt")
 
 
-def same(real, model, observe_only=False):
-    keys = ("exit", "out", "fs") if observe_only else KEYS
-    return all(real[k] == model[k] for k in keys)
+def same(real, model, keys=KEYS):
+    if keys is True:                       # exit status, standard output and files only
+        keys = ("exit", "out", "fs")
+    return all(real[k] == model.get(k) for k in keys)
+
+
+# ---- rules for the case families the model does not predict ------------------------------------
+# each: (what C19 / the documentation demands of such a run, predicate over the real result)
+def _nothing_touched(r):
+    return r["exit"] not in (0, -999) and r["exit"] > 0 and r["fs"] == "."
+
+
+RULES = {
+    "usage-error": ("an argument vector that getopt or main() rejects: status 1, no file created, changed or removed", lambda c, r: r["exit"] == 1 and r["fs"] == "."),
+    "fails-nothing-touched": ("non-zero status, no file created, changed or removed", lambda c, r: _nothing_touched(r)),
+    "fails-no-output": ("non-zero status and no new file", lambda c, r: r["exit"] > 0 and "+" not in r["fs"]),
+    "stdin-list-names-stdin": ("asconsum -c reading the list from standard input: an entry named \"-\" is a format error: status 1",
+                               lambda c, r: r["exit"] == 1 and "warn-format" in r["err"]),
+}
 
 
 # --------------------------------------------------------------------------
@@ -261,6 +451,7 @@ def password(rng, n):
 
 def sizes(B, tier):
     s = [0, 1, 15, 16, 17] + list(range(B - 17, B + 18)) + [2 * B - 1, 2 * B, 2 * B + 1, 3 * B]
+    s += [2 * (B - 16) - 1, 2 * (B - 16), 2 * (B - 16) + 1, 3 * (B - 16)]        # decrypt_file reads BUFSIZ-16 bytes at a time
     if tier == "thorough":
         s += list(range(2 * B - 17, 2 * B + 18)) + [3 * B - 16, 3 * B - 1, 3 * B + 1, 3 * B + 16, 5 * B + 3, 8 * B]
     return sorted(set(s))
@@ -283,6 +474,26 @@ def pw_variants(rng):
 def crypt(stream, mode, pw, i, o, fs, faults=".", rseed=1, explicit_out=True, observe_only=False, files=None):
     return Case("crypt", stream, fs, faults, rseed, mode=mode, pw=pw, files=files or [(i, o)], explicit_out=explicit_out,
                 observe_only=observe_only)
+
+
+def args(stream, mode, pw, inputs, fs, out=None, faults=".", rseed=1, tty=None, stdin=None, pty=False, dirs=(), model_extra=""):
+    """asconcrypt through main(): mode E/D/N (neither -e nor -d), pw ("P", bytes) / ("K", name) / ("B", bytes, name) / ("T",)"""
+    c = Case("args", stream, fs, faults, rseed, mode=mode, pw=pw, out=out, inputs=list(inputs))
+    c.tty, c.stdin, c.pty, c.dirs, c.model_extra = tty, stdin, pty, tuple(dirs), model_extra
+    return c
+
+
+def sumc(stream, alg, check, files, fs, faults=".", stdin=None, dirs=(), model_extra=""):
+    c = Case("sum", stream, fs, faults, alg=alg, check=check, files=list(files))
+    c.stdin, c.dirs, c.model_extra = stdin, tuple(dirs), model_extra
+    return c
+
+
+def ruled(stream, exe, argv, fs, rule, stdin=None, dirs=()):
+    """a run the model does not predict, judged by RULES[rule]"""
+    c = Case("crypt" if exe == "asconcrypt" else "sum", stream, fs)
+    c.raw_argv, c.rule, c.stdin, c.dirs = [exe] + list(argv), rule, stdin, tuple(dirs)
+    return c
 
 
 def fault_specs(cls_counts, B, rng, tier):
@@ -325,6 +536,9 @@ class Runner:
         self.samples = []
         self.mismatch = 0
         self.model_s_needed = 0
+        self.rule_cases = {}
+        self.extra = {}
+        self.typed_cases = []
         self.t_model = self.t_real = 0.0
 
     def model(self, cases, cfgs):
@@ -352,59 +566,104 @@ class Runner:
                 ans[own[0]][own[1]] = parse_answer(o)
         return ans, lines
 
-    def real(self, cases):
+    def real(self, cases, exes=None, extra_env=None):
         t0 = time.time()
+        exes = exes or self.exes
 
         def work(ic):
             i, c = ic
-            return run_real(c, self.blobs, self.exes, self.shim, os.path.join(self.scratch, "run", "w%d" % i))
+            return run_real(c, self.blobs, exes, self.shim, os.path.join(self.scratch, "run", "w%d" % i), extra_env=extra_env)
+        par = [(i, c) for i, c in enumerate(cases) if not c.pty]
         with ThreadPoolExecutor(max_workers=common.NPROC) as ex:
-            out = list(ex.map(work, enumerate(cases)))
+            got = dict(zip([i for i, _ in par], ex.map(work, par)))
+        for i, c in enumerate(cases):              # pseudo-terminal runs fork with a preexec function: one at a time
+            if c.pty:
+                got[i] = work((i, c))
         self.t_real += time.time() - t0
-        return out
+        return [got[i] for i in range(len(cases))]
+
+    def replay_of(self, c, r, a):
+        clip = lambda d: {k: (v if len(str(v)) < 400 else str(v)[:400] + "...") for k, v in d.items()}
+        repl = {"case": c.describe(self.blobs), "real": clip(r),
+                "how": "cd /verif && ./check C19 --replay <this file>   (rebuilds asconcrypt/asconsum from the working tree, runs "
+                       "argv under LD_PRELOAD=shim_c19.so with the recorded environment in a directory holding the files of `case.fs`, "
+                       "and the model on the same scenario)",
+                "argv": [x.decode("latin1") if isinstance(x, bytes) else os.path.basename(x) for x in c.argv(self.exes)],
+                "env": c.env()}
+        for cfg, ans in a.items():
+            repl["model_" + {"F": "fixed", "S": "shipped", "P": "patched", "A": "as_is"}[cfg]] = clip(ans)
+        return repl
+
+    def judge_rule(self, c, r, st):
+        what, pred = RULES[c.rule]
+        self.rule_cases[c.stream] = self.rule_cases.get(c.stream, 0) + 1
+        if r["err"] == "sanitizer" or r["exit"] < 0:
+            st["mismatch"] += 1
+            self.res.violation("crash@%s-%s" % (c.tool, c.stream), "%s: the program was killed or a sanitizer reported (exit %s): %s"
+                               % (c.stream, r["exit"], r["stderr_text"][:600]), self.replay_of(c, r, {}))
+        elif pred(c, r):
+            st["agree_rule"] = st.get("agree_rule", 0) + 1
+        else:
+            st["mismatch"] += 1
+            self.res.violation("rule-broken@%s-%s" % (c.tool, c.stream),
+                               "%s (no model prediction; rule: %s): exit=%s err=%s fs=%s" % (c.stream, what, r["exit"], r["err"], r["fs"][:200]),
+                               self.replay_of(c, r, {}))
 
     def batch(self, cases):
         """Runs the cases on both sides, compares, records; returns the real results."""
         if not cases:
             return []
-        cfgs = [("F", "S") if (re.search(r"w\d+f|l\d+", c.faults)) else ("F",) for c in cases]
+        mcases = [c for c in cases if not c.rule]
+        cfgs = [c.cfgs() for c in mcases]
         self.model_s_needed += sum(1 for c in cfgs if len(c) == 2)
-        ans, lines = self.model(cases, cfgs)
+        ans_m, lines = self.model(mcases, cfgs)
+        ans = {id(c): a for c, a in zip(mcases, ans_m)}
         real = self.real(cases)
-        for c, a, r in zip(cases, ans, real):
+        for c, r in zip(cases, real):
             self.n_eval += 1
-            key = c.line("F", self.B)
             st = self.per_stream.setdefault(c.stream, {"cases": 0, "agree_fixed_model": 0, "agree_only_shipped_model": 0,
                                                        "mismatch": 0, "exit0": 0, "exit_nonzero": 0})
             st["cases"] += 1
             st["exit0" if r["exit"] == 0 else "exit_nonzero"] += 1
+            if c.rule:
+                self.judge_rule(c, r, st)
+                continue
+            a = ans[id(c)]
+            req = c.cfgs()[0]
+            key = c.line(req, self.B)
+            mf = a[req]
             if key not in self.distinct:
                 self.distinct.add(key)
-                mf = a["F"]
                 cnt = mf.get("cnt", "0,0,0,0,0").split(",")
                 if len(cnt) == 5 and cnt[0].isdigit() and int(cnt[1]) + int(cnt[2]) > 0:
                     self.nontrivial.add(key)
-            if len(self.samples) < 6 and st["cases"] == 1:
+            keys = c.keys(r)
+            if keys != KEYS:
+                st["compared"] = ",".join(keys)
+            if len(self.samples) < 14 and st["cases"] == 1:
                 self.samples.append({"case": c.describe(self.blobs) if sum(len(x.bytes(self.blobs)) for x in c.fs.values()) < 300
                                      else {"tool": c.tool, "stream": c.stream, "argv": [x.decode("latin1")[:40] if isinstance(x, bytes) else os.path.basename(x) for x in c.argv(self.exes)],
-                                           "faults": c.faults}, "model": {k: a["F"].get(k) if k != "fs" else a["F"].get(k, "")[:80] for k in KEYS},
+                                           "faults": c.faults}, "model": {k: mf.get(k) if k != "fs" else mf.get(k, "")[:80] for k in KEYS},
                                      "real": {k: (r[k] if k != "fs" else r[k][:80]) for k in KEYS}})
-            if same(r, a["F"], c.observe_only):
+            if r["err"] == "sanitizer" or (r["exit"] < 0):
+                st["mismatch"] += 1
+                self.res.violation("crash@%s-%s" % (c.tool, c.stream), "%s (%s): the program was killed or a sanitizer reported (exit %s): %s"
+                                   % (c.tool, c.stream, r["exit"], r["stderr_text"][:600]), self.replay_of(c, r, a))
+                continue
+            if same(r, mf, keys):
                 st["agree_fixed_model"] += 1
                 continue
-            repl = {"case": c.describe(self.blobs), "real": {k: r[k] if len(str(r[k])) < 400 else str(r[k])[:400] + "..." for k in r},
-                    "model_fixed": {k: (v if len(str(v)) < 400 else str(v)[:400] + "...") for k, v in a["F"].items()},
-                    "how": "cd /verif && ./check C19 --replay <this file>   (rebuilds asconcrypt/asconsum from the working tree, runs "
-                           "argv under LD_PRELOAD=shim_c19.so with C19_FAULTS/C19_RSEED as recorded, and the model on the same scenario)",
-                    "argv": [x.decode("latin1") if isinstance(x, bytes) else os.path.basename(x) for x in c.argv(self.exes)],
-                    "env": {"C19_FAULTS": c.faults, "C19_RSEED": c.rseed}}
-            if "S" in a and same(r, a["S"], c.observe_only):
+            repl = self.replay_of(c, r, a)
+            alt = c.cfgs()[1] if len(c.cfgs()) > 1 else None
+            if alt and same(r, a[alt], keys):
                 st["agree_only_shipped_model"] += 1
-                if same(r, a["F"], True):
+                if same(r, mf, tuple(k for k in ("exit", "out", "fs") if k in keys)):
                     # same exit status, stdout and files as the fixed model: only the stderr text / call count differs
                     st["shipped_differs_in_stderr_only"] = st.get("shipped_differs_in_stderr_only", 0) + 1
                     continue
-                repl["model_shipped"] = {k: (v if len(str(v)) < 400 else str(v)[:400] + "...") for k, v in a["S"].items()}
+                if alt == "A":
+                    self.as_is_violation(c, r, repl)
+                    continue
                 if c.tool == "sum":
                     self.res.violation("list-read-error-ignored@asconsum-c",
                                        "asconsum -c: reading the checksum list failed (faults %s, fgets returned NULL with the error flag set) but "
@@ -422,13 +681,38 @@ class Runner:
             else:
                 st["mismatch"] += 1
                 self.mismatch += 1
-                diff = [k for k in KEYS if r[k] != a["F"].get(k)]
+                diff = [k for k in keys if r[k] != mf.get(k)]
                 self.res.violation("model-mismatch@%s-%s" % (c.tool, c.stream),
                                    "%s (%s), faults %s: the program and the proved model disagree on %s: program exit=%s err=%s cnt=%s fs=%s ; "
                                    "model exit=%s err=%s cnt=%s fs=%s" % (c.tool, c.stream, c.faults, ",".join(diff), r["exit"], r["err"], r["cnt"],
-                                                                          r["fs"][:120], a["F"].get("exit"), a["F"].get("err"), a["F"].get("cnt"),
-                                                                          str(a["F"].get("fs"))[:120]), repl)
+                                                                          r["fs"][:120], mf.get("exit"), mf.get("err"), mf.get("cnt"),
+                                                                          str(mf.get("fs"))[:120]), repl)
         return real
+
+    def as_is_violation(self, c, r, repl):
+        """the run equals the model of the tree as it is and differs from the model that fails loudly"""
+        argv = " ".join(repl["argv"][:1] + [x if len(x) < 30 else x[:12] + "...(%d)" % len(x) for x in repl["argv"][1:]])
+        if c.closes() != ".":
+            what = "asconcrypt -g" if c.tool == "gen" else "asconcrypt -%s" % {"E": "e", "D": "d", "N": "(direction from the names)"}[c.mode]
+            kept = [bytes.fromhex(t[1:].split("=")[0]).decode("latin1") for t in r["fs"].split(",") if t.startswith("+")]
+            self.res.violation("close-error-ignored@%s" % ("asconcrypt-g" if c.tool == "gen" else "asconcrypt-" + {"E": "e", "D": "d", "N": "e"}[c.mode]),
+                               "%s: close(2) of the OUTPUT file reported an error (selector %s: EIO after the descriptor was really closed - "
+                               "what NFS, a quota or a full disk report when the data written before could not be stored) but the exit status is %d, "
+                               "nothing is printed and the output file%s is kept: %s.  C19: \"exits non-zero without leaving a partial output file "
+                               "if ... any read or write fails\" / \"fail loudly on I/O errors\"; close(2) is where a deferred write failure is "
+                               "delivered.  apps/asconcrypt/fileops.c safe_file_close() discards the result of close().  The run equals the model "
+                               "of the tree as it is (Coq: C19_close_ignored, C19_close_ignored_refuted); with fixes/C19-close-errors.patch the "
+                               "model (C19_close_faults, C19_close_fail_clean) gives status 1, a message and no output."
+                               % (what, c.faults, r["exit"], "s" if len(kept) > 1 else "", ", ".join(kept)[:200]), repl)
+        else:
+            n = max(len(a.split(b"\0")[0]) for a in c.tty if a is not None)
+            self.res.violation("typed-password-truncated@asconcrypt",
+                               "%s with a typed password of %d bytes (getpass -> apps/asconcrypt/readpass.c read_password): exit status %d; the "
+                               "password is silently cut to 1023 bytes, so every password with the same first 1023 bytes opens the file - C19: "
+                               "\"it rejects a wrong password ... with a non-zero exit status\" over all passwords; -p and -k refuse 1024 bytes "
+                               "(\"password is too long\").  %s.  Coq: C19_tty_truncation, C19_tty_wrong_password_refuted; with "
+                               "fixes/C19-typed-password-length.patch: C19_tty_long_rejected."
+                               % (argv, n, r["exit"], "Stream " + c.stream), repl)
 
 
 def out_file(real, name):
@@ -473,31 +757,80 @@ def build_tools(res, sc):
     return exes, shim, oracle, B
 
 
+def build_san(sc, box):
+    """asconcrypt with -fsanitize=address,undefined (for the typed-password runs); in the background"""
+    bdir = os.path.join(sc, "bsan")
+    try:
+        ok, log = common.build_repo(bdir, "default", san=True, targets=("asconcrypt",))
+        box["exe"] = os.path.join(bdir, "apps", "asconcrypt", "asconcrypt") if ok else None
+        box["log"] = log[-1500:]
+    except Exception as e:                                          # reported as a note, never as a violation
+        box["exe"], box["log"] = None, str(e)[:500]
+
+
+def sanitized_typed(R, box, thr):
+    """the typed-password cases (readpass.c: getpass result of 0 ... 5000 bytes handed out in a heap block of exactly
+    strlen+1 bytes) once more on the sanitized build: no report, and the same result as the plain build"""
+    thr.join()
+    if not box.get("exe"):
+        R.res.notes.append("sanitized asconcrypt not built, typed-password runs not repeated under ASan: " + box.get("log", "")[-300:])
+        return {"runs": 0}
+    cases = R.typed_cases
+    plain = R.real(cases)
+    san = R.real(cases, exes={"asconcrypt": box["exe"], "asconsum": R.exes["asconsum"]}, extra_env=ASAN_ENV)
+    bad = 0
+    for c, p_, s_ in zip(cases, plain, san):
+        if s_["err"] == "sanitizer" or s_["exit"] < 0:
+            bad += 1
+            R.res.violation("sanitizer@readpass", "typed password (%s bytes): the sanitized asconcrypt reports (this is the memory-safety clause "
+                            "of C12 for readpass.c, met while running C19's typed-password cases): %s"
+                            % ([None if a is None else len(a) for a in c.tty], s_["stderr_text"][:800]), R.replay_of(c, s_, {}))
+        elif not same(s_, p_, ("exit", "err", "out", "fs")):
+            bad += 1
+            R.res.violation("sanitized-differs@readpass", "typed password: the sanitized build and the plain build disagree: %s vs %s"
+                            % ({k: str(s_[k])[:80] for k in KEYS}, {k: str(p_[k])[:80] for k in KEYS}), R.replay_of(c, s_, {}))
+    return {"runs": len(cases), "reports_or_differences": bad, "getpass_lengths": sorted(set(len(a) for c in cases for a in c.tty if a is not None))}
+
+
 def run(res, tier, seed, replay=None):
     t0 = time.time()
     rng = random.Random(seed)
     pr = stdflow.prove(res, "C19")
     driver = common.build_driver()
     with common.Scratch() as sc:
+        box = {}
+        thr = threading.Thread(target=build_san, args=(sc, box))
+        if not replay:
+            thr.start()
         got = build_tools(res, sc)
         if not got:
+            if not replay:
+                thr.join()
             return "proof"
         exes, shim, oracle, B = got
         R = Runner(res, driver, exes, shim, oracle, B, sc)
+        san_stats = None
         if replay:
             c = case_from_json(json.load(open(replay))["replay"]["case"])
             R.batch([c])
         else:
             explore(R, rng, tier, B)
+            san_stats = sanitized_typed(R, box, thr)
+        ruled_streams = sorted(R.rule_cases)
         res.cov.update({
             "evaluations": R.n_eval,
             "distinct_nontrivial": len(R.nontrivial),
             "rule": "one evaluation = one execution of the real asconcrypt/asconsum under the shim + the extracted model on the same "
-                    "scenario (file system, arguments, fault selectors, random seed); compared: exit status, stderr message classes, "
-                    "stdout bytes, every created/changed/removed file byte for byte, number of open/read/write/random/fgets calls. "
-                    "distinct = distinct model operation line; non-trivial = the model performs at least one read or write call",
+                    "scenario (file system, arguments, standard input, typed passwords, fault selectors, random seed); compared: exit status, "
+                    "stderr message classes, stdout bytes, every created/changed/removed file byte for byte, number of "
+                    "open/read/write/random/fgets calls (per_stream[...].compared names the streams where fewer items are compared: "
+                    "runs through standard input/output make no open call for \"-\" and their reads of descriptor 0 are not counted). "
+                    "distinct = distinct model operation line; non-trivial = the model performs at least one read or write call. "
+                    "Streams in observed_by_rule_only have no model prediction and are judged by the rule quoted there",
             "samples": R.samples,
             "per_stream": R.per_stream,
+            "observed_by_rule_only": {st: {"cases": R.rule_cases[st]} for st in ruled_streams},
+            "rules": {k: v[0] for k, v in RULES.items()},
             "bufsiz": B,
             "crypto_oracle": "harness/c19_oracle.c linked with libascon_static.a built from the working tree: ascon_pbkdf2, "
                              "ascon80pq_siv_*, ascon80pq_aead_* (incremental), ascon_hash/hasha/xof/xofa (incremental), ascon_random over the "
@@ -505,16 +838,52 @@ def run(res, tier, seed, replay=None):
                              "predicted byte for byte by the Coq I/O model calling this oracle.",
             "model_mismatches": R.mismatch,
             "cases_also_run_in_shipped_model": R.model_s_needed,
+            "typed_passwords_under_asan": san_stats,
             "wall_model_s": round(R.t_model, 1), "wall_real_s": round(R.t_real, 1),
-            "input_distribution": {"file_sizes": sizes(B, tier), "passwords": "1, 8, 1023 bytes on the command line; key files with LF, CRLF, no EOL, "
-                                   "1023 bytes; bad: 1024 bytes, NUL, missing, empty", "fault_classes": "o<k> r<k>f r<k>s<n> w<k>f w<k>s<n> g<k> l<k> "
-                                   "for every k of the fault-free run (+1), ENOSPC = short write then failure, short transfers on all calls"},
+            "input_distribution": {
+                "file_sizes": sizes(B, tier),
+                "passwords": "1, 8, 1023 bytes on the command line; key files with LF, CRLF, no EOL, 1023 bytes; bad: 1024 bytes, NUL, missing, empty",
+                "fault_classes": "o<k> r<k>f r<k>s<n> w<k>f w<k>s<n> g<k> l<k> for every k of the fault-free run (+1), ENOSPC = short write then "
+                                 "failure, short transfers on all calls",
+                "close-output-fails": "cw<k>: the k-th close(2) of a descriptor opened for writing returns -1/EIO after really closing, for every "
+                                      "such close of the fault-free encrypt and decrypt runs (+1), of a three-file run (also two at once, and with a "
+                                      "write fault), of -g; predicted by the model with and without fixes/C19-close-errors.patch",
+                "close-input-fails": "cr<k>: the same for read-only descriptors / streams (key file, input, asconsum's files and lists): must equal "
+                                     "the fault-free run (model: no fault)",
+                "asconsum-faults": "every fopen, fgets and fread of the fault-free hash-mode and check-mode runs fails once (+1 beyond), every fread "
+                                   "is short with the error flag once; the counts are read from the fault-free run (asconsum_fault_free_counts)",
+                "detect-direction": "no -e/-d: names with / without the .ascon suffix (also .ASCON, .asco, .ascon.bak, 1-5 character names, "
+                                    "x.ascon.ascon), several of one kind, one of each in both orders, -o, -e on an .ascon name, wrong password, "
+                                    "missing file, existing output",
+                "p-with-k / o-with-several-inputs / no-input / no-terminal": "each with -e, -d and neither; the order in which main() reports them",
+                "duplicate-names": "the same input twice / three times (second encryption replaces the first), output = input, the same "
+                                   "encrypted file twice; asconsum: a name given twice, a list naming a file twice",
+                "stdio": "\"-\" as input, as -o, as -k for asconcrypt (empty, 40 bytes, BUFSIZ+5 bytes, /dev/null; modified and truncated "
+                         "streams); asconsum without FILE arguments, with \"-\", \"-\" between files, a list on standard input, a list entry named \"-\"",
+                "directory": "a directory as input, as -o, as key file, between files (asconcrypt); as a file, as a list, as a listed file "
+                             "(asconsum); the model sees an empty file whose first read / whose open fails",
+                "typed-password": "getpass answers of 0, 1, 8, 1023, 1024, 5000 bytes (shim: C19_TTY, C19_GETPASS), twice to encrypt, once to "
+                                  "decrypt, cross-checked with -p; confirmation differs / is a prefix / NULL / missing; wrong passwords, also wrong "
+                                  "only beyond byte 1023; all of them repeated on an ASan+UBSan build",
+                "typed-password-pty": "0, 1, 12, 1023, 1024 printable bytes typed into a pseudo-terminal that is the controlling terminal, "
+                                      "standard input and output of the process; the C library's getpass",
+                "check-several-lists": "two lists, a missing list and a malformed list between them, a listed file missing",
+                "rejected-options (rule)": "unknown option, missing option argument, -g with inputs, no arguments",
+            },
         })
+        res.cov.update(R.extra)
     res.assumptions += [
         "the cryptographic primitives behave as crypto_good states (C01-C06 are the checks for that); here they are taken from the library under test",
         "Model/Clim.v mirrors apps/asconcrypt/*.c and apps/asconsum/asconsum.c (checked by the differential run above on every scenario, not proved)",
-        "the file system is a map from names to contents; '-' (stdin/stdout), interactive passwords, option parsing, output-name derivation for names "
-        "shorter than 6 characters, close(2) results, EINTR retries and the 1 TiB limit are outside the model (EINTR and close failures are observed only)",
+        "the file system is a map from names to contents; standard input and output are files with reserved names; getopt itself, \"-\" given "
+        "more than once, the 1 TiB limit and EINTR retries are outside the model (EINTR is observed only); a directory is modelled as an empty "
+        "file whose first read (or whose open for writing) fails",
+        "close(2): a failing close of an OUTPUT descriptor is taken to be a failed write in the sense of C19 (that is where NFS, quotas and "
+        "full disks deliver it); a failing close of a read descriptor must not change the run",
+        "typed passwords: getpass is replaced by the shim (any bytes, any length) and, for printable passwords up to 1024 bytes, exercised "
+        "through a real pseudo-terminal; the terminal line discipline limits what a person can type to 4095 bytes",
+        "runs judged by rule only (no model prediction): argument vectors rejected by getopt, an empty derived output name, a list on standard "
+        "input naming standard input; the bytes a failing decryption had already written to standard output are observed, not predicted",
         "faults are injected at the PLT boundary (LD_PRELOAD); stdio-internal reads of asconsum are faulted at fread/fgets/fopen level",
         "file sizes < 2^31, BUFSIZ > 16",
     ]
@@ -604,6 +973,14 @@ def explore(R, rng, tier, B):
                 fcases.append(crypt("eintr-observed", "D", pw, b"cipher.enc", b"plain.out", dfs, faults="r%de" % k, observe_only=True))
             for k in range(0, counts_of(r)[2]):
                 fcases.append(crypt("eintr-observed", "E", pw, b"plain.bin", b"cipher.enc", fs, faults="w%de" % k, rseed=base.rseed, observe_only=True))
+            # close(2) reporting an error, every close of the two runs (and one beyond): of the output descriptor
+            # (cw<k>: the patched model fails the run, the model of the tree as it is does not), of a read descriptor
+            # (cr<k>: key file, input - nothing can be lost, the run must be the fault-free one)
+            for (mode_, inp_, out_, fs_, rr, seed_) in (("E", b"plain.bin", b"cipher.enc", fs, r, base.rseed), ("D", b"cipher.enc", b"plain.out", dfs, dr, 1)):
+                for k in range(rr["closes"][0] + 1):
+                    fcases.append(args("close-output-fails", mode_, pw, [inp_], fs_, out=out_, faults="cw%d" % k, rseed=seed_))
+                for k in range(rr["closes"][1] + 1):
+                    fcases.append(args("close-input-fails", mode_, pw, [inp_], fs_, out=out_, faults="cr%d" % k, rseed=seed_))
     R.batch(fcases)
     # ---- D. passwords, key files, several files ----------------------------
     misc = []
@@ -635,6 +1012,8 @@ def explore(R, rng, tier, B):
                       files=mfiles))
     misc.append(crypt("several-files", "E", ("P", b"pw"), None, None, {k: v for k, v in multi.items() if k != b"second.data"}, rseed=11,
                       explicit_out=False, files=mfiles))
+    for spec in ("cw0", "cw1", "cw2", "cw3", "cw0,cw2", "cr0", "cr2", "cw1,w7f"):
+        misc.append(args("close-output-fails" if "cw" in spec else "close-input-fails", "E", ("P", b"pw"), sorted(multi), multi, faults=spec, rseed=11))
     mreal = R.batch(misc)
     encd = {}
     for tok in mreal[misc.index(mc)]["fs"].split(","):
@@ -654,10 +1033,154 @@ def explore(R, rng, tier, B):
            Case("gen", "generate", {b"new.key": C(b"old contents\n")}, ".", 5, kf=b"new.key")]
     for spec in ["o0", "o1", "g0", "g1", "w0f", "w1f", "w2f", "w3f", "w4f", "w0s5", "w0s5,w1f", "w0s38", "w2s0"]:
         gen.append(Case("gen", "generate-faults", {}, spec, 5, kf=b"new.key"))
+    for spec in ["cw0", "cw1", "cw0,g0", "cw0,w0s5"]:
+        gen.append(Case("gen", "close-output-fails", {}, spec, 5, kf=b"new.key"))
+    gen.append(Case("gen", "close-output-fails", {b"new.key": C(b"old contents\n")}, "cw0", 5, kf=b"new.key"))
     greal = R.batch(gen)
     kf = out_file(greal[0], b"new.key")
     if kf is not None:
         R.batch([crypt("generated-key", "E", ("K", b"new.key"), b"plain.bin", b"cipher.enc", {b"plain.bin": C(b"hello"), b"new.key": C(kf)}, rseed=9)])
+    # ---- G. main() of asconcrypt: direction from the names, option combinations, "-" ------------
+    P = ("P", b"pw")
+    doc = patterned(rng, 40)
+    c1 = args("detect-direction", "N", P, [b"report.txt"], {b"report.txt": C(doc)}, rseed=rng.randrange(1, 1 << 30))
+    img = out_file(R.batch([c1])[0], b"report.txt.ascon")
+    big = patterned(rng, B + 5)
+    c2 = args("stdio", "E", P, [b"-"], {}, stdin=big, rseed=rng.randrange(1, 1 << 30))
+    r2 = R.batch([c2])[0]
+    bigimg = bytes.fromhex(r2["out"]) if r2["exit"] == 0 and r2["out"] != "-" else None
+    g = []
+    if img is not None:
+        enc = C(img)
+        g += [args("detect-direction", "N", P, [b"report.txt.ascon"], {b"report.txt.ascon": enc}),                       # -> report.txt
+              args("detect-direction", "N", P, [b"report.txt.ascon"], {b"report.txt.ascon": enc, b"report.txt": C(b"older version")}),
+              args("detect-direction", "D", P, [b"stored.bin"], {b"stored.bin": enc}),                                   # -> stored.bin.decrypted
+              args("detect-direction", "N", P, [b"a.ascon", b"b.ascon"], {b"a.ascon": enc, b"b.ascon": enc}),
+              args("detect-direction", "N", P, [b"a.ascon", b"notes.txt"], {b"a.ascon": enc, b"notes.txt": C(doc)}),     # one of each: refused
+              args("detect-direction", "N", P, [b"notes.txt", b"a.ascon"], {b"a.ascon": enc, b"notes.txt": C(doc)}),
+              args("detect-direction", "N", P, [b"notes.txt", b"more.txt", b"a.ascon", b"last.txt"], {b"a.ascon": enc, b"notes.txt": C(doc)}),
+              args("detect-direction", "N", P, [b"x.ascon.ascon"], {b"x.ascon.ascon": enc}),                             # -> x.ascon
+              args("detect-direction", "N", P, [b"a.ascon"], {b"a.ascon": enc}, out=b"result.bin"),
+              args("detect-direction", "E", P, [b"a.ascon"], {b"a.ascon": enc}, rseed=4),                                # -e wins: a.ascon.ascon
+              args("detect-direction", "N", P, [b"x.ascon"], {b"x.ascon": C(b"not an encrypted file")}),
+              args("detect-direction", "N", ("P", b"other"), [b"a.ascon"], {b"a.ascon": enc}),
+              args("detect-direction", "N", P, [b"gone.ascon"], {}),
+              args("duplicate-names", "D", P, [b"a.ascon", b"a.ascon"], {b"a.ascon": enc}),
+              args("stdio", "D", P, [b"a.ascon"], {b"a.ascon": enc}, out=b"-"),
+              args("stdio", "N", P, [b"a.ascon"], {b"a.ascon": enc}, out=b"-"),
+              args("stdio", "D", P, [b"-"], {}, stdin=img),
+              args("stdio", "D", P, [b"-"], {}, stdin=img, out=b"from-stdin.txt"),
+              args("stdio", "D", ("K", b"-"), [b"a.ascon"], {b"a.ascon": enc}, stdin=b"pw\nrest of standard input\n"),
+              args("stdio", "D", ("K", b"-"), [b"a.ascon"], {b"a.ascon": enc}, stdin=b"pW\n")]
+    for nm in (b"file.ASCON", b"file.asco", b"file.ascon.bak", b"ascon", b"readme", b"abc", b"a", b".asconx", b"ascon.ascon.txt"):
+        g.append(args("detect-direction", "N", P, [nm], {nm: C(doc)}, rseed=rng.randrange(1, 1 << 30)))
+    g.append(args("detect-direction", "N", P, [b"one.txt", b"two.txt", b"abc"], {b"one.txt": C(doc), b"two.txt": C(b""), b"abc": C(big)}, rseed=12))
+    two = {b"one.txt": C(doc), b"two.txt": C(patterned(rng, 3)), b"key.txt": C(b"pw\n")}
+    for mode in "EDN":
+        g.append(args("p-with-k", mode, ("B", b"pw", b"key.txt"), [b"one.txt"], two, rseed=3))
+        g.append(args("p-with-k", mode, ("B", b"pw", b"absent.key"), [b"one.txt", b"two.txt"], two, rseed=3))
+        g.append(args("o-with-several-inputs", mode, P, [b"one.txt", b"two.txt"], two, out=b"out.bin", rseed=3))
+        g.append(args("o-with-several-inputs", mode, ("K", b"key.txt"), [b"one.txt", b"two.txt", b"one.txt"], two, out=b"-", rseed=3))
+        g.append(args("no-input", mode, P, [], two, rseed=3))
+        g.append(args("no-input", mode, ("K", b"key.txt"), [], two, out=b"out.bin", rseed=3))
+        g.append(args("no-terminal", mode, ("T",), [b"one.txt"], two, rseed=3))
+    g.append(args("o-with-several-inputs", "E", P, [b"one.txt"], two, out=b"out.bin", rseed=3))                          # one input: fine
+    g.append(args("p-with-k", "E", ("B", b"pw", b"key.txt"), [], two, rseed=3))                                         # usage comes first
+    g.append(args("p-with-k", "E", ("B", b"pw", b"key.txt"), [b"one.txt", b"two.txt"], two, out=b"out.bin", rseed=3))   # -p/-k comes before -o
+    g.append(args("duplicate-names", "E", P, [b"one.txt", b"one.txt"], two, rseed=rng.randrange(1, 1 << 30)))
+    g.append(args("duplicate-names", "E", P, [b"one.txt", b"two.txt", b"one.txt"], two, rseed=rng.randrange(1, 1 << 30), faults="w9f"))
+    g.append(args("duplicate-names", "E", P, [b"one.txt"], two, out=b"one.txt", rseed=6))                               # output = input: O_TRUNC empties it first
+    # "-"
+    g += [args("stdio", "N", P, [b"-"], {}, stdin=doc, rseed=8), args("stdio", "E", P, [b"-"], {}, stdin=b"", rseed=8),
+          args("stdio", "E", P, [b"-"], {}, stdin=None, rseed=8), args("stdio", "E", P, [b"-"], {}, stdin=doc, out=b"from-stdin.enc", rseed=8),
+          args("stdio", "E", P, [b"one.txt"], two, out=b"-", rseed=8), args("stdio", "N", P, [b"one.txt"], two, out=b"-", rseed=8),
+          args("stdio", "E", ("K", b"-"), [b"one.txt"], two, stdin=b"typed into a pipe\n", rseed=8),
+          args("stdio", "E", ("K", b"-"), [b"one.txt"], two, stdin=b"", rseed=8),
+          args("stdio", "E", ("K", b"-"), [b"one.txt"], two, stdin=b"x" * 1024, rseed=8),
+          args("stdio", "D", P, [b"-"], {}, stdin=b""), args("stdio", "D", P, [b"-"], {}, stdin=b"ASCONcrypt\0\1" + bytes(100))]
+    if bigimg is not None:
+        g.append(args("stdio", "D", P, [b"-"], {}, stdin=bigimg))
+        # a modified / truncated stream decrypted to standard output: must fail; what had been written before the tag
+        # was checked cannot be taken back (observed, reported in the evidence as stdout_bytes_before_rejection)
+        t = bytearray(bigimg); t[-1] ^= 1
+        g.append(args("stdio-tampered", "D", P, [b"-"], {}, stdin=bytes(t)))
+        t = bytearray(bigimg); t[200] ^= 0x10
+        g.append(args("stdio-tampered", "D", P, [b"-"], {}, stdin=bytes(t)))
+        g.append(args("stdio-tampered", "D", P, [b"-"], {}, stdin=bigimg[:-7]))
+        g.append(args("stdio-tampered", "D", P, [b"big.enc"], {b"big.enc": C(bytes(t))}, out=b"-"))
+    # directories where files are expected (the model sees an empty file whose first read / whose open fails)
+    g += [args("directory", "E", P, [b"somedir"], {b"somedir": C(b"")}, dirs=[b"somedir"], model_extra="r0f", rseed=9),
+          args("directory", "D", P, [b"somedir.ascon"], {b"somedir.ascon": C(b"")}, dirs=[b"somedir.ascon"], model_extra="r0f"),
+          args("directory", "N", P, [b"somedir"], {b"somedir": C(b"")}, dirs=[b"somedir"], model_extra="r0f", rseed=9),
+          args("directory", "E", P, [b"one.txt"], {**two, b"outdir": C(b"")}, out=b"outdir", dirs=[b"outdir"], model_extra="o1", rseed=9),
+          args("directory", "E", ("K", b"keydir"), [b"one.txt"], {**two, b"keydir": C(b"")}, dirs=[b"keydir"], model_extra="r0f", rseed=9),
+          args("directory", "E", P, [b"one.txt", b"somedir", b"two.txt"], {**two, b"somedir": C(b"")}, dirs=[b"somedir"], model_extra="r2f", rseed=9)]
+    # argument vectors that getopt / main() refuse and the model has no word for: judged by rule
+    for av in ([b"-z", b"one.txt"], [b"-p"], [b"-e", b"-p", b"pw", b"-k"], [b"-o"], [b"-g"], [b"-g", b"new.key", b"one.txt"], [],
+               [b"-e"], [b"-d", b"-p", b"pw"], [b"-e", b"-p", b"pw", b"-x", b"one.txt"], [b"--help"], [b"-g", b"new.key", b"-e", b"one.txt"]):
+        g.append(ruled("rejected-options", "asconcrypt", av, two, "usage-error"))
+    g.append(ruled("empty-output-name", "asconcrypt", [b"-p", b"pw", b".ascon"], {b".ascon": C(img or b"x")}, "fails-nothing-touched"))
+    g.append(ruled("empty-output-name", "asconcrypt", [b"-d", b"-p", b"pw", b"-o", b"", b"a.ascon"], {b"a.ascon": C(img or b"x")}, "fails-nothing-touched"))
+    greal2 = R.batch(g)
+    R.extra["stdout_bytes_before_rejection"] = [len(r["out"]) // 2 if r["out"] != "-" else 0 for c, r in zip(g, greal2) if c.stream == "stdio-tampered"]
+    for c, r in zip(g, greal2):
+        if c.stream == "stdio-tampered" and r["exit"] == 0:
+            R.res.violation("tamper-accepted@asconcrypt-d", "%s: exit status 0 for a modified stream" % c.stream, R.replay_of(c, r, {}))
+    # ---- H. typed passwords (readpass.c) ---------------------------------------------------------
+    T = ("T",)
+    typed, rt = [], []
+    tfs = {b"plain.bin": C(doc)}
+    for n in (0, 1, 8, 1023, 1024, 5000):
+        pwb = password(rng, n)
+        typed.append(args("typed-password", "E", T, [b"plain.bin"], tfs, out=b"cipher.enc", tty=[pwb, pwb], rseed=100 + n))
+        typed.append(args("typed-password", "N", T, [b"plain.bin"], tfs, tty=[pwb, pwb, pwb], rseed=100 + n))
+        rt.append((n, pwb))
+    pwb = password(rng, 12)
+    typed += [args("typed-password", "E", T, [b"plain.bin"], tfs, tty=[pwb, pwb + b"x"], rseed=5),
+              args("typed-password", "E", T, [b"plain.bin"], tfs, tty=[pwb, pwb[:-1]], rseed=5),
+              args("typed-password", "E", T, [b"plain.bin"], tfs, tty=[pwb, None], rseed=5),
+              args("typed-password", "E", T, [b"plain.bin"], tfs, tty=[pwb], rseed=5),
+              args("typed-password", "E", T, [b"plain.bin"], tfs, tty=[None], rseed=5),
+              args("typed-password", "E", T, [b"plain.bin"], tfs, tty=[], rseed=5),
+              args("typed-password", "D", T, [b"plain.bin"], tfs, tty=[None]),
+              args("typed-password", "E", T, [b"plain.bin", b"absent.bin"], tfs, tty=[pwb, pwb], rseed=5),
+              args("typed-password", "E", T, [b"plain.bin"], tfs, out=b"cipher.enc", tty=[pwb, pwb], faults="cw0", rseed=5),
+              # 1023 bytes typed twice and a 1024-byte one that starts with them: the confirmation "matches" in the tree as it is
+              args("typed-password", "E", T, [b"plain.bin"], tfs, tty=[rt[3][1], rt[3][1] + b"Z"], rseed=5)]
+    treal = R.batch(typed)
+    dtyped = []
+    for (n, pwb), c, r in zip(rt, typed[0::2], treal[0::2]):
+        e = out_file(r, b"cipher.enc")
+        if e is None:
+            continue
+        dfs = {b"cipher.enc": C(e)}
+        dtyped.append(args("typed-password", "D", T, [b"cipher.enc"], dfs, out=b"plain.out", tty=[pwb]))
+        # what was typed and -p must be the same password (up to 1023 bytes)
+        if 0 < n <= 1023 and b"," not in pwb:
+            dtyped.append(args("typed-password", "D", ("P", pwb), [b"cipher.enc"], dfs, out=b"plain.out"))
+        wrong = bytes([pwb[0] ^ 1 or 2]) + pwb[1:] if n else b"x"
+        dtyped.append(args("typed-wrong-password", "D", T, [b"cipher.enc"], dfs, out=b"plain.out", tty=[wrong]))
+        if n >= 1024:
+            # wrong only beyond byte 1023: C19 demands a rejection
+            w2 = pwb[:1023] + bytes([pwb[1023] ^ 1 or 2]) + pwb[1024:]
+            dtyped.append(args("typed-wrong-password", "D", T, [b"cipher.enc"], dfs, out=b"plain.out", tty=[w2]))
+            dtyped.append(args("typed-wrong-password", "D", T, [b"cipher.enc"], dfs, out=b"plain.out", tty=[pwb[:1023]]))
+    R.batch(dtyped)
+    R.typed_cases = [c for c in typed + dtyped if c.tty is not None]
+    # the same through a real pseudo-terminal and the C library's getpass (printable passwords)
+    ptys = []
+    for n in (0, 1, 12, 1023, 1024):
+        pwb = bytes(rng.choice(b"abcdefghijklmnopqrstuvwxyzABCDEFGHIJKLMNOPQRSTUVWXYZ0123456789 !#%+,-./:=?@_~") for _ in range(n))
+        ptys.append(args("typed-password-pty", "E", T, [b"plain.bin"], tfs, out=b"cipher.enc", tty=[pwb, pwb], rseed=200 + n, pty=True))
+    ptys.append(args("typed-password-pty", "E", T, [b"plain.bin"], tfs, tty=[b"one thing", b"another"], rseed=5, pty=True))
+    preal = R.batch(ptys)
+    pd = []
+    for c, r in zip(ptys[:5], preal[:5]):
+        e = out_file(r, b"cipher.enc")
+        if e is not None:
+            pd.append(args("typed-password-pty", "D", T, [b"cipher.enc"], {b"cipher.enc": C(e)}, out=b"plain.out", tty=[c.tty[0]], pty=True))
+            pd.append(args("typed-password-pty", "D", T, [b"cipher.enc"], {b"cipher.enc": C(e)}, out=b"plain.out", tty=[c.tty[0] + b"x"], pty=True))
+    R.batch(pd)
     # ---- F. asconsum -------------------------------------------------------
     sums = []
     ssz = [0, 1, B - 1, B, B + 1, 2 * B, 3 * B + 7] if tier == "quick" else [0, 1, 7, 8, 9, 31, 32, 33, B - 1, B, B + 1, 2 * B - 1, 2 * B, 2 * B + 1, 3 * B + 7, 6 * B]
@@ -713,16 +1236,66 @@ def explore(R, rng, tier, B):
         chk.append(ck("check-malformed", b"\n\n\n"))
         chk.append(ck("check-missing", listing, base, files=(b"nolist.txt",)))
         chk.append(ck("check-ok", listing, base, files=(b"sums.txt", b"sums.txt")))
-        # faults
-        nf = len(lines_)
-        for k in list(range(0, nf + 3)):
+        # faults: every open, fgets and fread of the fault-free run fails once (and one beyond), every fread is short once
+        okc = ck("check-ok", listing)
+        co, cr_, _, _, cg = [int(x) for x in R.batch([okc])[0]["cnt"].split(",")]
+        for k in range(co + 1):
             chk.append(ck("sum-faults", listing, faults="o%d" % k))
+        for k in range(cg + 1):
             chk.append(ck("sum-faults", listing, faults="l%d" % k))
-        for k in range(0, nf + 6, 1 if tier == "thorough" else 2):
+        for k in range(cr_ + 1):
             chk.append(ck("sum-faults", listing, faults="r%df" % k))
             chk.append(ck("sum-faults", listing, faults="r%ds%d" % (k, rng.choice([0, 5, B - 2]))))
-        for k in range(0, nf + 6, 3):
+        ho, hr = [int(x) for x in sreal[2 * alg]["cnt"].split(",")[:2]]
+        for k in range(hr + 1):
             chk.append(Case("sum", "sum-faults", sfs, "r%df" % k, alg=alg, check=False, files=allnames))
-            chk.append(Case("sum", "sum-faults", sfs, "o%d" % k, alg=alg, check=False, files=allnames))
             chk.append(Case("sum", "sum-faults", sfs, "r%ds%d" % (k, rng.choice([0, 5, B - 2])), alg=alg, check=False, files=allnames))
+        for k in range(ho + 1):
+            chk.append(Case("sum", "sum-faults", sfs, "o%d" % k, alg=alg, check=False, files=allnames))
+        # fclose reporting an error (read streams only: nothing to lose): the run must be the fault-free one
+        for k in range(0, sreal[2 * alg]["closes"][1] + 1, 3):
+            chk.append(Case("sum", "close-input-fails", sfs, "cr%d" % k, alg=alg, check=False, files=allnames))
+            chk.append(ck("close-input-fails", listing, faults="cr%d" % k))
+        R.extra.setdefault("asconsum_fault_free_counts", {})["haxy"[alg]] = {"check": {"open": co, "fread": cr_, "fgets": cg}, "hash": {"open": ho, "fread": hr}}
+        # ---- several files, missing ones, directories, the same name twice, "-" -------------------------------
+        reads = lambda n: len(sfs[n].bytes(R.blobs)) // B + 1            # fread calls asconsum makes for that file
+        d0, d1, d2 = allnames[0], allnames[4], allnames[-1]
+        withdir = dict(sfs); withdir[b"adir"] = C(b"")
+        chk += [sumc("sum-several", alg, False, [d0, b"missing.dat", d1, b"also-missing", d2], sfs),
+                sumc("sum-several", alg, False, [b"missing.dat"], sfs),
+                sumc("duplicate-names", alg, False, [d1, d1, d0, d1], sfs),
+                sumc("directory", alg, False, [b"adir", d0], withdir, dirs=[b"adir"], model_extra="r0f"),
+                sumc("directory", alg, False, [d1, d0, b"adir", d2], withdir, dirs=[b"adir"], model_extra="r%df" % (reads(d1) + reads(d0))),
+                sumc("directory", alg, False, [b"adir"], withdir, dirs=[b"adir"], model_extra="r0f"),
+                sumc("directory", alg, True, [b"adir"], withdir, dirs=[b"adir"], model_extra="l0")]
+        l_of = {n: l for n, l in zip(allnames, lines_)}
+        two_lists = dict(base)
+        two_lists[b"first.lst"] = C(l_of[d0] + b"\n" + l_of[d1] + b"\n")
+        two_lists[b"second.lst"] = C(l_of[d2] + b"\n")
+        two_lists[b"bad.lst"] = C(l_of[d2][:20] + b"\n")
+        chk += [Case("sum", "check-several-lists", two_lists, alg=alg, check=True, files=[b"first.lst", b"second.lst"]),
+                Case("sum", "check-several-lists", two_lists, alg=alg, check=True, files=[b"first.lst", b"nolist.txt", b"second.lst"]),
+                Case("sum", "check-several-lists", two_lists, alg=alg, check=True, files=[b"first.lst", b"bad.lst", b"second.lst"]),
+                Case("sum", "check-several-lists", two_lists, alg=alg, check=True, files=[b"nolist.txt"]),
+                Case("sum", "check-several-lists", {k: v for k, v in two_lists.items() if k != d2}, alg=alg, check=True, files=[b"first.lst", b"second.lst"]),
+                ck("duplicate-names", l_of[d0] + b"\n" + l_of[d1] + b"\n" + l_of[d0] + b"\n"),
+                ck("duplicate-names", l_of[d0] + b"\n" + l_of[d0].upper().replace(d0.upper(), d0) + b"\n")]
+        wd = dict(base); wd[b"adir"] = C(b"")
+        f = dict(wd); f[b"sums.txt"] = C(l_of[d0] + b"\n" + l_of[d0][:66] + b"adir\n" + l_of[d1] + b"\n")
+        chk.append(sumc("directory", alg, True, [b"sums.txt"], f, dirs=[b"adir"], model_extra="r%df" % reads(d0)))
+        f = dict(base); f[b"sums.txt"] = C(l_of[d0] + b"\n" + l_of[d0][:66] + b"sums.txt\n")                     # the list lists itself
+        chk.append(sumc("check-modified", alg, True, [b"sums.txt"], f))
+        data = base[d1].bytes(R.blobs)
+        chk += [sumc("stdio", alg, False, [], sfs, stdin=data), sumc("stdio", alg, False, [b"-"], sfs, stdin=data),
+                sumc("stdio", alg, False, [d0, b"-", d2], sfs, stdin=data), sumc("stdio", alg, False, [], sfs, stdin=b""),
+                sumc("stdio", alg, False, [], sfs, stdin=None),
+                sumc("stdio", alg, True, [], sfs, stdin=listing), sumc("stdio", alg, True, [b"-"], sfs, stdin=listing),
+                sumc("stdio", alg, True, [b"-"], {k: v for k, v in sfs.items() if k != d0}, stdin=listing),
+                sumc("stdio", alg, True, [], sfs, stdin=b""), sumc("stdio", alg, True, [], sfs, stdin=b"garbage\n")]
+        f = dict(base); f[b"sums.txt"] = C(l_of[d0] + b"\n" + l_of[d1][:66] + b"-\n")                                # an entry named "-": standard input
+        chk.append(sumc("stdio", alg, True, [b"sums.txt"], f, stdin=data))
+        chk.append(sumc("stdio", alg, True, [b"sums.txt"], f, stdin=data + b"!"))
+        chk.append(ruled("stdio-list-names-stdin", "asconsum", [b"-" + b"haxy"[alg:alg + 1], b"-c"], sfs, "stdin-list-names-stdin", stdin=l_of[d0] + b"\n" + l_of[d1][:66] + b"-\n"))
+        for av in ([b"-q", d0], [b"-c", b"-z"], [b"--version"]):
+            chk.append(ruled("rejected-options", "asconsum", av, sfs, "usage-error"))
     R.batch(chk)
